@@ -34,3 +34,186 @@ def const_variant_arg(body, op):
     if len(defs) == 1 and defs[0][2] == 'a' and defs[0][4][0] == 'agg' and defs[0][4][1]['k'] == 'adt':
         return defs[0][4][1]['variant']
     return None
+
+
+# ---------------------------------------------------------------------------------------------
+# guards
+# ---------------------------------------------------------------------------------------------
+
+def rel_edges(facts, body, opclass, left, right, either_order=True):
+    """edges on which `L opclass R` holds, L containing all leaf labels in `left`, R in `right`.
+    opclass: 'lt' (< or <=), 'gt', 'eq', 'ne', 'le_or_eq' (lt or eq), 'any'"""
+    def pred(f):
+        if opclass == 'le_or_eq':
+            return rel_matches(f, 'lt', left, right, either_order) or rel_matches(f, 'eq', left, right, either_order)
+        return rel_matches(f, opclass, left, right, either_order)
+    return guard_edges(facts, body, pred)
+
+
+def bool_call_edges(facts, body, callee_pred, truth, arg_leafs=()):
+    """edges on which a bool-returning call satisfying callee_pred(name) has the given truth"""
+    def pred(f):
+        if f[0] != 'bool' or f[2] != truth:
+            return False
+        n = strip(f[1])
+        if n[0] != 'call' or not callee_pred(n[1]):
+            return False
+        if arg_leafs:
+            ls = set()
+            for a in n[2]:
+                ls |= leafs(a)
+            return set(arg_leafs) <= ls
+        return True
+    return guard_edges(facts, body, pred)
+
+
+def variant_edges(facts, body, subject_leafs, variants, positive=True):
+    """edges of discriminant switches on a subject with the given leaves, where the discriminant is
+    (positive) one of `variants` / (negative) known not to be any of them"""
+    def pred(f):
+        if f[0] == 'is':
+            if not set(subject_leafs) <= leafs(f[1]):
+                return False
+            return (f[2] in variants) == positive
+        if f[0] == 'isnot':
+            if not set(subject_leafs) <= leafs(f[1]):
+                return False
+            if positive:
+                return False
+            return set(variants) <= set(f[2])
+        if f[0] == 'rel' and f[1] in ('Eq', 'Ne'):
+            # PartialEq against a constant variant
+            a, b = strip(f[2]), strip(f[3])
+            for x, y in ((a, b), (b, a)):
+                if y[0] == 'variant' and set(subject_leafs) <= leafs(x):
+                    vn = y[1].rsplit('::', 1)[-1]
+                    holds = (f[1] == 'Eq')
+                    if positive and holds and vn in variants:
+                        return True
+                    if not positive and not holds and set(variants) <= {vn}:
+                        return True
+        return False
+    return guard_edges(facts, body, pred)
+
+
+def bool_local_switches(body, l):
+    """(bb, true_target, false_target, labels) for switches whose operand is local l or a single-def copy"""
+    out = []
+    copies = {l}
+    for ll, defs in body._all_defs().items():
+        if len(defs) == 1 and defs[0][2] == 'a' and defs[0][3] == [] and defs[0][4][0] == 'use' \
+                and is_place_op(defs[0][4][1]) and defs[0][4][1][1] == [l, []]:
+            copies.add(ll)
+    for bi, bl in enumerate(body.blocks):
+        if bl['cl'] or bl['t'][0] != 'switch':
+            continue
+        t = bl['t']
+        if is_place_op(t[1]) and t[1][1][1] == [] and t[1][1][0] in copies and t[4] == 'bool':
+            tt = ft = None
+            for tb, lab in body.succ_edges(bi):
+                if lab[1] == 0:
+                    ft = (bi, tb, lab)
+                elif lab[1] == 'else' or lab[1] == 1:
+                    tt = (bi, tb, lab)
+            out.append((bi, tt, ft))
+    return out
+
+
+def derived_guard_edges(body, base_edges, edge_ok=None, polarity=True):
+    """close a set of pass-edges under: bool local L all of whose `true` (polarity) stores are
+    unreachable once the pass-edges are cut (and which has no non-constant store) => the
+    `true` out-edges of switches on L are pass-edges too."""
+    edges = set(base_edges)
+    # candidate bool locals: assigned constants only
+    cands = {}
+    for l, defs in body._all_defs().items():
+        if body.locals[l]['ty'] != 'bool' or l <= body.nargs:
+            continue
+        ok = True
+        tstores = []
+        for (bi, si, kind, pr, rv) in defs:
+            if kind != 'a' or pr != []:
+                ok = False
+                break
+            if rv[0] == 'use' and rv[1][0] == 'k' and isinstance(rv[1][2], bool):
+                if rv[1][2] == polarity:
+                    tstores.append(bi)
+            else:
+                ok = False
+                break
+        if ok and tstores:
+            cands[l] = tstores
+    changed = True
+    while changed:
+        changed = False
+        seen = body.reachable(cut_edges=edges, edge_ok=edge_ok)
+        for l, tstores in list(cands.items()):
+            if all(b not in seen for b in tstores):
+                for (bi, tt, ft) in bool_local_switches(body, l):
+                    e = tt if polarity else ft
+                    if e is not None and e not in edges:
+                        edges.add(e)
+                        changed = True
+                del cands[l]
+    return edges
+
+
+def cut_sites(body, sites, edges, edge_ok=None, start=0):
+    """sites (blocks) still reachable from start once edges are removed -> list of (site, path)"""
+    seen = body.reachable(cut_edges=set(edges), edge_ok=edge_ok, start=start)
+    return [(s, body.path_to(seen, s)) for s in sites if s in seen]
+
+
+def feasible_sites(body, sites, edge_ok):
+    seen = body.reachable(edge_ok=edge_ok)
+    return [s for s in sites if s in seen]
+
+
+def fkey(adt, field, root=1):
+    """normalised place key of field `field` of struct `adt` behind reference argument `root`"""
+    return (('d', root), (('f', field, adt, '-'),))
+
+
+def always_followed_by(body, site_bb, callee_names, edge_ok=None):
+    """T2 pairing: every path from (after) site_bb to a return passes a call to one of callee_names.
+    returns [] if it holds, else a witness path to a return block avoiding those calls."""
+    blockers = {bi for bi, c, *_ in body.calls() if (body.callee_name(c) in callee_names)}
+    tgt = body.blocks[site_bb]['t']
+    starts = [tb for tb, _ in body.succ_edges(site_bb)]
+    bad = []
+    for st in starts:
+        if st in blockers:
+            continue
+        seen = body.reachable(cut_blocks=blockers, start=st, edge_ok=edge_ok)
+        for rb in body.return_blocks():
+            if rb in seen:
+                bad.append([site_bb] + body.path_to(seen, rb))
+                break
+    return bad
+
+
+def must_write_fields(facts, body, adt):
+    """fields of `adt` (behind arg 1) stored on *every* path of body: field -> list of store blocks.
+    Only direct stores `(*_1).f = ...` and call-destination stores are considered."""
+    stores = {}
+    for bi, bl in enumerate(body.blocks):
+        if bl['cl']:
+            continue
+        for si, s in enumerate(bl['s']):
+            if s[0] == 'a':
+                np_ = body.norm(s[1])
+                if np_[0] == ('d', 1) and len(np_[1]) == 1 and np_[1][0][0] == 'f' and np_[1][0][2] == adt:
+                    stores.setdefault(np_[1][0][1], []).append((bi, si))
+        t = bl['t']
+        if t[0] == 'call':
+            np_ = body.norm(t[3])
+            if np_[0] == ('d', 1) and len(np_[1]) == 1 and np_[1][0][0] == 'f' and np_[1][0][2] == adt:
+                stores.setdefault(np_[1][0][1], []).append((bi, 'T'))
+    out = {}
+    for f, sts in stores.items():
+        blocks = {b for b, _ in sts}
+        seen = body.reachable(cut_blocks=blocks)
+        # a store block that is itself the start is still "passed"
+        if all(rb not in seen or rb in blocks for rb in body.return_blocks()) or 0 in blocks:
+            out[f] = sts
+    return out
